@@ -161,6 +161,11 @@ func runPreAgg(c *hx.Ctx, r *hx.Rng, st *state) bool {
 					v[5] = 0
 				}
 			}
+			if isF && v[0]<<1 == 0 && v[1]<<1 == 0 {
+				// minimum and maximum are zeros: so is every value, and the sum (well-formed statistics)
+				v[4] = v[0]
+				negZero = v[0] != 0 || v[1] != 0
+			}
 		case k == 7 && isF:
 			fam = "zeros"
 			z := int64(0)
